@@ -169,7 +169,7 @@ Definition entry_of (c : copts) (p : list bytes) (n : tnode) : xentry :=
   | TDir m => mk_xentry (path_str p) 1 [] (if c_keep_perm c then Some m else None) None []
   end.
 
-(* collect_items: the walk order is an oracle permutation; directories only with --keep-dir *)
+(* collect_items: the walk order is an oracle; directories only with --keep-dir *)
 Definition collected (c : copts) (n : tnode) : bool :=
   match n with TDir _ => c_keep_dir c | _ => true end.
 
@@ -183,6 +183,37 @@ Fixpoint create_from_tree (c : copts) (order : list (list bytes)) (t : tree) : l
     | None => create_from_tree c r t
     end
   end.
+
+(* collect_items since 4cfc8ff5: overlapping file arguments (`-r t t/a`, `./t/a t/a`) make the walker reach a path
+   more than once; of the paths that pass the filter the first of every entry name is the item
+   (`if seen.insert(EntryName::from_lossy(&path)) { target_items.push(path) }`).  `walk` = what the walker yields,
+   repetitions included; create_from_tree above is the special case of a walk that reaches every path once *)
+Fixpoint name_seen (x : bytes) (seen : list bytes) : bool :=
+  match seen with [] => false | y :: r => bytes_eqb x y || name_seen x r end.
+Fixpoint create_walk_seen (c : copts) (seen : list bytes) (walk : list (list bytes)) (t : tree) : list xentry :=
+  match walk with
+  | [] => []
+  | p :: r =>
+    match tget t p with
+    | Some n => if collected c n then
+                  if name_seen (path_str p) seen then create_walk_seen c seen r t
+                  else entry_of c p n :: create_walk_seen c (path_str p :: seen) r t
+                else create_walk_seen c seen r t
+    | None => create_walk_seen c seen r t
+    end
+  end.
+Definition create_from_walk (c : copts) (walk : list (list bytes)) (t : tree) : list xentry :=
+  create_walk_seen c [] walk t.
+(* create before 4cfc8ff5: every walked path that passes is an item (C02_create_overlap_unrepaired_refuted) *)
+Definition create_from_walk_orig (c : copts) (walk : list (list bytes)) (t : tree) : list xentry :=
+  create_from_tree c walk t.
+(* the walked paths, each once: the first occurrence of every name, in walk order *)
+Fixpoint uniq_seen (seen : list bytes) (walk : list (list bytes)) : list (list bytes) :=
+  match walk with
+  | [] => []
+  | p :: r => if name_seen (path_str p) seen then uniq_seen seen r else p :: uniq_seen (path_str p :: seen) r
+  end.
+Definition uniq_paths (walk : list (list bytes)) : list (list bytes) := uniq_seen [] walk.
 
 (* ---- what is expected after create + extract into an empty directory -------------------------- *)
 (* observable result: relative path, kind, content / target, and the metadata that was asked for *)
